@@ -53,13 +53,19 @@ def gen_prog(rng, cfg=None, nsec=None, nseg=None, allow_nested=True, allow_compr
             s["data"] = rbytes(rng, n); s["size"] = n
         p.sections.append(s)
     # ---- segments over runs of allocated, non-empty sections (no-bits only last)
-    free = [i for i, s in enumerate(p.sections) if ((s["flags"] & 2) or (nonalloc_members and s["type"] != 8 and i % 3 == 0)) and s["size"] > 0]
+    # empty data sections may be members too (a quarter of the programs; only in segments whose members the writer
+    # addresses itself: an empty section with an explicit address leaving a gap is the analogue of the recorded
+    # no-bits gap finding and is left out)
+    empty_members = rng.random() < 0.25
+    free = [i for i, s in enumerate(p.sections) if ((s["flags"] & 2) or (nonalloc_members and s["type"] != 8 and i % 3 == 0)) and (s["size"] > 0 or (empty_members and s["type"] != 8))]
     used = set()
     vbase = rng.choice([0x1000, 0x8048000, 0x400000, 0x10000])
     for j in range(nseg):
         cand = [i for i in free if i not in used]
         g = dict(type=rng.choice([1, 1, 1, 2, 4, 0x6474e551]), flags=rng.choice([4, 5, 6, 7]), align=rng.choice([0, 1, 4, 16, 0x1000, 0x10000]),
                  vaddr=0, paddr=0, members=[], explicit=rng.random() < 0.5, nested_in=None)
+        if empty_members:
+            g["explicit"] = False
         if cand and rng.random() < 0.85:
             k = rng.randint(1, min(3, len(cand)))
             start = rng.randrange(0, len(cand) - k + 1)
@@ -79,6 +85,17 @@ def gen_prog(rng, cfg=None, nsec=None, nseg=None, allow_nested=True, allow_compr
                 if body != sorted(body):
                     g["shuffled"] = True
                 keep = body + tail
+            # an empty section at the very end of a segment's file contents is not inside the segment by the membership
+            # rule (its start is not below the segment's end): on reload it would not be a member. Keep empty members
+            # in front of a member with file contents; drop trailing ones, and all of them from explicitly addressed segments
+            def has_bytes(m):
+                return p.sections[m]["type"] != 8 and p.sections[m]["size"] > 0
+            if g["explicit"]:
+                keep = [m for m in keep if p.sections[m]["size"] > 0]
+            while keep and not has_bytes(keep[-1]) and p.sections[keep[-1]]["type"] != 8:
+                keep.pop()
+            last_bytes = max([k for k, m in enumerate(keep) if has_bytes(m)], default=-1)
+            keep = [m for k, m in enumerate(keep) if p.sections[m]["size"] > 0 or k < last_bytes]
             g["members"] = keep
             used.update(keep)
         g["vaddr"] = vbase + rng.choice([0, 0, 0x40, 0x123]) if g["members"] else rval(rng, w - 1)
